@@ -452,7 +452,7 @@ def r2_7(cx):
     """drain-schedule independence: the consumer only ever sees and removes the stable prefix, which stops at the open chunk header (R4.1-R4.3, R4.6)"""
     from . import c04
     from . import c03
-    compose(cx, [('R4.1', c04.r4_1), ('R4.2', c04.r4_2), ('R4.3', c04.r4_3), ('R4.6', c04.r4_6), ('R3.3', c03.r3_3)])
+    compose(cx, [('R4.1', c04.r4_1), ('R4.2', c04.r4_2), ('R4.3', c04.r4_3), ('R4.5', c04.r4_5), ('R4.6', c04.r4_6), ('R3.3', c03.r3_3)])
 
 
 def r2_8(cx):
